@@ -137,6 +137,17 @@ def mc_layer_b(wd, tag="b", deep=False):
     out["states"] = states
     out["distinct"] = distinct
     out["ok"] = True
+    if deep:
+        # the binding of Layer B to the code: behaviours generated from the model, replayed, predicted vs observed raw image
+        out["impl_model_conformance"] = [b_conformance(wd, scale(40, 400), depth=10, n_clusters=20),
+                                         b_conformance(wd, scale(40, 400), depth=24, n_clusters=8, grow=True)]
+        for c in out["impl_model_conformance"]:
+            if c["tool_errors"]:
+                raise core.ToolError("Layer B conformance replay failed:\n" + c["tool_errors"][0])
+            c.pop("tool_errors")
+            if c["drift"]:
+                print("NOTE: Layer B no longer describes the code on %d of %d compared calls (model drift, not a violation): %s"
+                      % (c["drift"], c["compared"], c["drift_samples"][:2]))
     return out
 
 
@@ -160,6 +171,89 @@ def mc_durable(wd):
     r.pop("out_tail", None)
     r.pop("progs", None)
     return r
+
+
+BGEN_CFG = """SPECIFICATION GSpec
+CONSTANT N = %d
+CONSTANT SPC = 16
+CONSTANT ROOT = 16
+CONSTANT MaxOps = %d
+CONSTANT Features = {}
+CONSTANT Legacy = {}
+CONSTANT Grow = %s
+INVARIANT Emit
+CHECK_DEADLOCK FALSE
+"""
+BNAMES = {"a": "a", "A": "A", "b": "b", "L": "Long name xyz.txt"}
+
+
+def b_conformance(wd, n_beh, depth=10, corrupt=False, n_clusters=20, grow=False):
+    """behaviours of Layer B generated by TLC (simulation mode, realistic constants: 20 clusters, 16 slots per cluster, fixed root of 16
+    slots) replayed on the real library; TraceB compares the model's predicted directory slots and table with the raw image"""
+    cfgp = os.path.join(wd, "bgen.cfg")
+    with open(cfgp, "w") as f:
+        f.write(BGEN_CFG % (n_clusters, depth, "TRUE" if grow else "FALSE"))
+    hists = {}
+    for k in range(8):
+        if len(hists) >= n_beh:
+            break
+        tmp = os.path.join(wd, "tmp-bgen")
+        os.makedirs(tmp, exist_ok=True)
+        env = dict(os.environ, JAVA_TOOL_OPTIONS="-Djava.io.tmpdir=%s" % tmp)
+        cmd = ["java", "-XX:+UseParallelGC", "-XX:ParallelGCThreads=2", "-Xmx2g", "-cp", core.TLC_CP, "tlc2.TLC", "-workers", "1", "-simulate",
+               "num=%d" % max(20, n_beh // 2), "-depth", str(depth + 2), "-seed", str(core.seed() * 100 + k), "-metadir", os.path.join(wd, "md-bgen"),
+               "-cleanup", "-noGenerateSpecTE", "-config", cfgp, os.path.join(core.SPEC, "MC_BGen.tla")]
+        p = subprocess.run(cmd, cwd=core.SPEC, env=env, stdout=subprocess.PIPE, stderr=subprocess.STDOUT, text=True, timeout=900)
+        shutil.rmtree(tmp, ignore_errors=True)
+        shutil.rmtree(os.path.join(wd, "md-bgen"), ignore_errors=True)
+        for ln in p.stdout.splitlines():
+            if ln.startswith('<<"BPROG", "'):
+                body = ln[len('<<"BPROG", "'):-3].replace('\\"', '"').replace("\\\\", "\\")
+                hists[body] = 1
+    progs = []
+    cs = 512
+    for i, body in enumerate(list(hists)[:n_beh]):
+        try:
+            h = json.loads(body)
+        except Exception:
+            continue
+        ops = []
+        n = 0
+        for st in h:
+            o = st["op"]
+            tag = {"res": st["res"], "ids": st["ids"], "dirs": st["dirs"], "fat": st["fat"], "cmp": "both"}
+            path = "/".join([BNAMES[x] for x in st["dp"]] + [BNAMES[o["n"]]]) if "n" in o else ""
+            if o["op"] in ("create_file", "create_dir", "remove"):
+                ops.append({"op": o["op"], "at": "", "path": path, "tag": tag})
+            elif o["op"] == "rename":
+                dst = "/".join([BNAMES[x] for x in st["dp2"]] + [BNAMES[o["n2"]]])
+                ops.append({"op": "rename", "at": "", "src": path, "to": "", "dst": dst, "tag": tag})
+            elif o["op"] in ("append", "truncate"):
+                if st["res"] == "NotFound":
+                    continue          # (the model's "not a file" has no single counterpart in the API)
+                n += 1
+                hh = "b%d" % n
+                ops.append({"op": "open_file", "at": "", "path": path, "as": hh})
+                if o["op"] == "append":
+                    ops.append({"op": "seek", "h": hh, "from": "end", "off": 0})
+                    ops.append({"op": "write_all", "h": hh, "pat": n, "len": cs, "tag": dict(tag, cmp="res")})
+                else:
+                    ops.append({"op": "seek", "h": hh, "from": "start", "off": 0})
+                    ops.append({"op": "truncate", "h": hh, "tag": dict(tag, cmp="res")})
+                ops.append({"op": "close", "h": hh, "tag": dict(tag, cmp="state")})
+        ops.append({"op": "unmount"})
+        if corrupt:                  # binding demonstration: falsify one predicted table cell of the last compared call
+            tg = [o for o in ops if "tag" in o and o["tag"]["cmp"] != "res"]
+            if tg:
+                t = tg[-1]["tag"] = json.loads(json.dumps(tg[-1]["tag"]))
+                k = str(n_clusters + 1)
+                t["fat"][k] = -1 if t["fat"][k] == 0 else 0
+        progs.append({"id": "bgen%d-%d" % (n_clusters, i), "cfg": {"vol": gen.fmt((3 + n_clusters) * 512, bpc=512, fats=1, root=16)}, "ops": ops, "origin": "tlc:MC_BGen"})
+    r = core.campaign("layer-b", progs, wd, spec="TraceB", n_shards=8)
+    drift = [t for t in r.notes if str(t[0]).startswith("B.")]
+    return {"behaviours": len(progs), "events": r.events, "compared": len([t for t in r.infos if t[0] == "compared"]), "drift": len(drift), "drift_samples": [list(t) for t in drift[:5]],
+            "tool_errors": r.tool_errors[:1],
+            "results": sorted({st["res"] for b in list(hists)[:n_beh] for st in json.loads(b)})}
 
 
 def units_str(u):
@@ -918,4 +1012,10 @@ def selftest(args):
     good = (not r["ok"]) and "WithinBudget" in r["violated"]
     ok = ok and good
     print("Device Legacy=TRUE        expected counterexample to WithinBudget %s" % ("ok" if good else "MISSED"))
+    c0 = b_conformance(wd, 10)
+    c1 = b_conformance(wd, 10, corrupt=True)
+    good = c0["compared"] > 50 and c0["drift"] == 0 and c1["drift"] == c1["behaviours"]
+    ok = ok and good
+    print("Layer B replay            %d calls compared, drift %d; one predicted table cell falsified per behaviour: drift %d of %d  %s"
+          % (c0["compared"], c0["drift"], c1["drift"], c1["behaviours"], "ok" if good else "MISSED"))
     sys.exit(0 if ok else 1)
